@@ -80,3 +80,16 @@ const _: () = {
         }
     }
 };
+
+#[cfg(ohkami_verif)]
+impl<const N: usize, Value> IndexMap<N, Value> {
+    /// (verification hook) dump slot table and value vector, including dead entries
+    pub(crate) fn __verif_dump(&self, out: &mut Vec<u8>, mut dump_value: impl FnMut(&Value, &mut Vec<u8>)) {
+        out.extend_from_slice(&self.index);
+        out.extend_from_slice(&(self.values.len() as u32).to_le_bytes());
+        for (i, v) in &self.values {
+            out.push(*i as u8);
+            dump_value(v, out);
+        }
+    }
+}
